@@ -99,8 +99,8 @@ package roman
 // lower-casing changes the seven Roman capitals to their small letters and nothing else
 //@ pure func lower(c byte) byte = ite(c == 'I' || c == 'V' || c == 'X' || c == 'L' || c == 'C' || c == 'D' || c == 'M', c+32, c)
 //@ func toLower
-//@   ensures [C02.case C16.inplace] len(result) == len(buf) && forall i in 0..len(buf) :: result[i] == lower(old(buf)[i])
-//@   ensures sameOrFresh(result, buf)
+//@   ensures [C02.case C16.inplace] forall i in 0..len(buf) :: buf[i] == lower(old(buf)[i])
+//@   ensures [C02.case] sameSlice(result, buf)
 //@   assigns buf
 //@   loop 0 invariant 0 <= rangeindex+1 && rangeindex+1 <= len(buf)
 //@   loop 0 invariant forall i in 0..rangeindex+1 :: buf[i] == lower(old(buf)[i])
@@ -117,14 +117,18 @@ package roman
 //@ pure func lenT(n Number, f Format) int = dtLen(dT(n), f&FormatLong40 != 0, f&FormatLong90 != 0)
 //@ pure func lenU(n Number, f Format) int = dtLen(dU(n), f&FormatLong4 != 0, f&FormatLong9 != 0)
 //@ pure func numeralLen(n Number, f Format) int = th(n) + lenH(n, f) + lenT(n, f) + lenU(n, f)
-//@ pure func numeralAt(w bytes, o int, n Number, f Format) bool = (forall i in 0..th(n) :: w[o+i] == cs('M', f))
-//@     && (forall i in 0..5 :: i < lenH(n, f) ==> w[o+th(n)+i] == cs(dtAt(dH(n), i, 'C', 'D', 'M', f&FormatLong400 != 0, f&FormatLong900 != 0), f))
-//@     && (forall i in 0..5 :: i < lenT(n, f) ==> w[o+th(n)+lenH(n, f)+i] == cs(dtAt(dT(n), i, 'X', 'L', 'C', f&FormatLong40 != 0, f&FormatLong90 != 0), f))
-//@     && (forall i in 0..5 :: i < lenU(n, f) ==> w[o+th(n)+lenH(n, f)+lenT(n, f)+i] == cs(dtAt(dU(n), i, 'I', 'V', 'X', f&FormatLong4 != 0, f&FormatLong9 != 0), f))
+//@ pure func thousandsAt(w bytes, o int, n Number, f Format) bool = forall i in 0..th(n) :: w[o+i] == cs('M', f)
+//@ pure func hundredsAt(w bytes, o int, n Number, f Format) bool = forall i in 0..5 :: i < lenH(n, f) ==> w[o+th(n)+i] == cs(dtAt(dH(n), i, 'C', 'D', 'M', f&FormatLong400 != 0, f&FormatLong900 != 0), f)
+//@ pure func tensAt(w bytes, o int, n Number, f Format) bool = forall i in 0..5 :: i < lenT(n, f) ==> w[o+th(n)+lenH(n, f)+i] == cs(dtAt(dT(n), i, 'X', 'L', 'C', f&FormatLong40 != 0, f&FormatLong90 != 0), f)
+//@ pure func unitsAt(w bytes, o int, n Number, f Format) bool = forall i in 0..5 :: i < lenU(n, f) ==> w[o+th(n)+lenH(n, f)+lenT(n, f)+i] == cs(dtAt(dU(n), i, 'I', 'V', 'X', f&FormatLong4 != 0, f&FormatLong9 != 0), f)
+//@ pure func numeralAt(w bytes, o int, n Number, f Format) bool = thousandsAt(w, o, n, f) && hundredsAt(w, o, n, f) && tensAt(w, o, n, f) && unitsAt(w, o, n, f)
 
 //@ func DefaultFormatter
 //@   ensures [C02.canon C16.append] err == nil && len(result) == len(buf) + numeralLen(n, f)
-//@   ensures [C02.canon C16.append] numeralAt(result, len(buf), n, f)
+//@   ensures [C02.canon C16.append] thousandsAt(result, len(buf), n, f)
+//@   ensures [C02.canon C16.append] hundredsAt(result, len(buf), n, f)
+//@   ensures [C02.canon C16.append] tensAt(result, len(buf), n, f)
+//@   ensures [C02.canon C16.append] unitsAt(result, len(buf), n, f)
 //@   ensures [C16.append] forall i in 0..len(buf) :: result[i] == old(buf)[i]
 //@   ensures [C16.inplace] sameOrFresh(result, buf)
 //@   assigns buf[len(buf):]
